@@ -51,9 +51,27 @@ func (u *Universe) newExec(pkg *packages.Package, name string, r *Repr) *Exec {
 		defs: map[string]string{}, opaque: map[string]bool{}, usedLemmas: map[string]bool{}}
 }
 
-func (u *Universe) verifyContract(c *Contract) (res *FuncResult) {
+// verifyContractAll: one verification per specialisation of interface-typed parameters.
+func (u *Universe) verifyContractAll(c *Contract) []*FuncResult {
+	if len(c.Specialize) == 0 {
+		return []*FuncResult{u.verifyContract(c, nil)}
+	}
+	var out []*FuncResult
+	for p, ts := range c.Specialize {
+		for _, t := range ts {
+			out = append(out, u.verifyContract(c, map[string]string{p: t}))
+		}
+		break
+	}
+	return out
+}
+
+func (u *Universe) verifyContract(c *Contract, variant map[string]string) (res *FuncResult) {
 	pkg := u.Pkgs[c.PkgPath]
 	name := shortPkg(c.PkgPath) + "." + c.Key
+	for _, t := range variant {
+		name += "[" + t + "]"
+	}
 	res = &FuncResult{Name: name, Contract: c}
 	defer func() {
 		if r := recover(); r != nil {
@@ -93,6 +111,13 @@ func (u *Universe) verifyContract(c *Contract) (res *FuncResult) {
 		unsupported("contract %s: header has %d results, function has %d", c.Where, len(c.Results), sig.Results().Len())
 	}
 	bindParam := func(id *ast.Ident, t types.Type, cname string, recv bool) {
+		if tn, ok := variant[cname]; ok {
+			ct, err := u.resolveType(pkg, ast.NewIdent(tn))
+			if err != nil {
+				unsupported("%s: specialize %s: %v", c.Where, cname, err)
+			}
+			t = ct
+		}
 		v := x.havocNamed(e, t, cname, hasName(c.BVNames, cname))
 		if pv, ok := v.(PtrV); ok && recv {
 			pv.Nil = FalseT
@@ -276,6 +301,7 @@ func (x *Exec) checkReturn(st *State) {
 		ce.where = en.Line
 		t := ce.boolTerm(ce.expr(en.Expr))
 		x.addObl("post", fmt.Sprintf("post.%d", i+1), st, t, en.Line)
+		st.assume(t) // later postconditions may rely on earlier ones (each is proved in turn)
 	}
 	for i, pw := range c.PanicsWhen {
 		pe := x.entryEnv(x.entry)
@@ -494,6 +520,7 @@ func (u *Universe) verifyLemma(l *Lemma) (res *FuncResult) {
 		e.where = en.Line
 		t := e.boolTerm(e.expr(en.Expr))
 		x.addObl("lemma", fmt.Sprintf("ensures.%d", i+1), st, t, en.Line)
+		st.assume(t) // later conclusions may use earlier ones
 	}
 	res.Obls = x.finishObls()
 	res.Trivial = x.trivial
